@@ -22,7 +22,8 @@ RULE = ("API level (fresh Program per case, no-progress detector on the size loo
         "5000 digits in 14 operand positions, 5000-character labels, 8000-character strings, 30000-element lists, "
         "20000 statements); (8) 12 shapes of EQU symbols defined through each other (alias and expression cycles, "
         "chains, undefined ends) x 11 uses x definition before/after use; (9) division by something that is zero "
-        "only once symbols are known (7 spellings of zero x 15 positions x definition before/after). CLI level (real assembler.py "
+        "only once symbols are known (7 spellings of zero x 15 positions x definition before/after); (10) 32 numeric "
+        "spellings at the edges of the literal grammar (-0, 007, $00000, foreign digits, stray signs) x 19 positions. CLI level (real assembler.py "
         "processes with --to_bin/--to_cas/--to_dsk): no traceback; on a diagnostic exit status != 0 and no output "
         "file created. Oracle: outcome is OK or a Parse/Translation diagnostic with a message and a printable "
         "statement; never an internal exception, never a hang. Non-trivial = outcome is not OK, or the case is of "
@@ -49,6 +50,8 @@ OPERANDS = ["", "1", "$10", "#1", "#$FFFF", "L0", "L1", "L0+1", "L0-1", "L0-L1",
             "nosuch.asm", "\"a\u0100b\"", "/\u00e9/", "'\u20ac", "L\u0100", "#'\u0100", "L0,L1", "L0,L0", "X,Y,Z", "$", "#", "<", ">", "[", "]", "[]", "[,]", "+", "-", "*", "/", "1+",
             "+1", "1+2+3", "1++2", "--1", "-", "$-1", "#-", "65535+1", "32767*2", "1/2", "0/0", "L0+70000"]
 
+_ODD_NUMBERS = ["-0", "-00", "-000", "+0", "+5", "00", "007", "-007", "$0", "$00", "$000", "$00000", "%0", "%00000000", "-$5", "-%101", "$-5",
+                "0x10", "10H", "1e3", "1_000", "١٢", "٠", "²", "1.5", "-", "--0", "-+0", "0-0", "'", "''", "'AB"]
 _NUMS = [0, 1, 15, 16, 127, 128, 255, 256, 300, 4095, 4096, 32767, 32768, 65535, 65536, 70000, 99999, -1, -16, -17, -128,
          -129, -255, -256, -32768, -32769, -70000]
 
@@ -263,6 +266,19 @@ def zero_divisor_cases():
         yield dict(kind="cli", cls="cli", lines=[" ORG $1000\n", "L0 NOP \n", " LDA #5/{}\n".format(z)] + defs, switches=["--to_bin", "o.bin"])
 
 
+def odd_number_cases():
+    """numeric spellings at the edges of the literal grammar (negative zero, leading zeros, foreign digits, stray signs)
+    in every operand position"""
+    positions = [" LDA #{n}\n", " LDX #{n}\n", " LDA {n}\n", " LDA <{n}\n", " LDA {n},X\n", " LDA [{n},Y]\n", " JMP [{n}]\n", " LDA {n},PCR\n", " BRA {n}\n",
+                 " FCB {n}\n", " FCB 1,{n},2\n", " FDB {n}\n", " RMB {n}\n", " ORG {n}\n", "E0 EQU {n}\n", " LDA #1+{n}\n", " LDA #{n}-1\n", " SETDP {n}\n",
+                 " END {n}\n"]
+    for num in _ODD_NUMBERS:
+        for pos in positions:
+            line = pos.format(n=num)
+            yield dict(kind="lines", cls="odd_number", lines=[" ORG $1000\n", "L0 NOP \n", line] + ([" LDA #E0\n"] if line.startswith("E0") else []))
+        yield dict(kind="cli", cls="cli", lines=[" ORG $1000\n", " LDB #{}\n".format(num), " FCB 1,{}\n".format(num)], switches=["--to_bin", "o.bin"])
+
+
 def long_input_cases():
     """very long tokens, lines and programs (a decimal literal beyond 4300 digits trips the interpreter's own limit)"""
     for digits in (6, 40, 4300, 4301, 5000):
@@ -288,6 +304,7 @@ def enumerated(tier, seed):
     yield from long_input_cases()
     yield from equ_cycle_cases()
     yield from zero_divisor_cases()
+    yield from odd_number_cases()
     for case in include_catalogue():
         yield case
         yield dict(case, kind="cli_include", cls="cli", switches=["--to_bin", "o.bin", "--to_cas", "o.cas", "--to_dsk", "o.dsk"])
@@ -331,7 +348,7 @@ def _judge_api(out, labels):
 def execute(case):
     kind = case["kind"]
     labels = ["class:" + case["cls"]]
-    special = case["cls"] in ("pcr_sweep", "include", "cli", "odd_chars", "long_input", "equ_cycle", "zero_divisor")
+    special = case["cls"] in ("pcr_sweep", "include", "cli", "odd_chars", "long_input", "equ_cycle", "zero_divisor", "odd_number")
     if kind == "lines":
         out = driver.assemble(case["lines"])
         bad = _judge_api(out, labels)
